@@ -332,7 +332,7 @@ namespace Diskfs.Ranges.C03
     [start, start + bytes_used), so no byte outside that range changes; the code pads nothing
     (NoPad is not consulted), so bytes_used is the exact end: the writes lie inside
     [start, start + size) if bytes_used ≤ size, and if bytes_used > size some write ends beyond
-    start + size — Finalize never compares the two (recorded finding sqfs-finalize-exceeds-size). -/
+    start + size — before fix 7f38962 Finalize never compared the two (finding sqfs-finalize-exceeds-size, repaired: it now refuses any WriteAt ending behind the size). -/
 theorem sqfs_finalize_in_range (p : Sqfs.Pieces) (start size : Nat) (d : Dev) (ws : List Wr)
     (hws : ws.map (fun w => (w.off, w.data.length)) = (Sqfs.finalize p).writes) :
     (∀ w ∈ ws.map (subWrite start), start ≤ w.off ∧ w.off + w.data.length ≤ start + (Sqfs.finalize p).bytesUsed) ∧
@@ -372,7 +372,7 @@ open Diskfs.Iso in
     [start, start + volBlocks * blocksize), where `volBlocks` is `totalSize`, the volume size written
     into the descriptor; so no byte outside changes whatever the device held, and the writes lie inside
     [start, start + size) whenever the volume fits the size the filesystem was created with.  Finalize
-    itself never compares the two (recorded finding iso-finalize-exceeds-size), hence the premise. -/
+    itself never compared the two before fix 71762a2 (finding iso-finalize-exceeds-size, repaired: Finalize now refuses before its first write), hence the premise. -/
 theorem iso_finalize_in_range (i : ImageIn) (start size : Nat) (d : Dev) (hbs : 2048 ≤ i.bs) (hp : i.pvd.WF)
     (hpl : i.Placed) :
     (∀ w ∈ i.writesGo.map (subWrite start), start ≤ w.off ∧ w.off + w.data.length ≤ start + i.volBlocks * i.bs) ∧
